@@ -52,15 +52,18 @@ PKG = _ar([("debian-binary", b"2.0\n"),
            ("data.tar", _tar([(n, d) for n, d in PACKED.items() if n != "control"]))])
 
 
-def h_matrix(params, mask: int, rot: int, rev: bool):
-    lo, hi = params["mask_range"]
-    assume(lo <= mask < hi)
+def h_matrix(params, m0: bool, m1: bool, m2: bool, m3: bool, m4: bool, m5: bool, m6: bool, m7: bool, m8: bool, m9: bool,
+             m10: bool, m11: bool, rot: int, rev: bool):
+    """Member presence is one symbolic boolean per candidate name (four of them fixed per partition)."""
+    bits = [m0, m1, m2, m3, m4, m5, m6, m7, m8, m9, m10, m11]
     n = len(NAMES)
+    for i, v in enumerate(params["fixed"]):
+        assume(bits[i] == v)
     assume(0 <= rot < 3)
+    chosen = [i for i in range(n) if bits[i]]
     if params.get("thin"):
-        assume(rot == mask % 3)
-        assume(rev == ((mask // 3) % 2 == 1))
-    chosen = [i for i in range(n) if (mask >> i) & 1]
+        assume(rot == len(chosen) % 3)
+        assume(rev == (len(chosen) % 2 == 1))
     order = chosen[rot % max(1, len(chosen)):] + chosen[:rot % max(1, len(chosen))]
     if rev:
         order = order[::-1]
@@ -122,11 +125,12 @@ def h_spelling(params, q: str):
 def partitions(tier, seed):
     P = []
     q = tier == "quick"
-    n = 1 << len(NAMES)
-    step = n // (16 if q else 32)
-    for lo in range(0, n, step):
-        P.append(dict(name="matrix/%d-%d" % (lo, lo + step), harness="h_matrix", params=dict(mask_range=[lo, lo + step], **({"thin": True} if q else {})),
-                      budget=100 if q else 900, reach=[], bounds="member subsets with bitmask in [%d,%d), 3 rotations x 2 directions" % (lo, lo + step)))
+    import itertools
+    for fixed in itertools.product((False, True), repeat=4 if q else 5):
+        P.append(dict(name="matrix/%s" % "".join("1" if v else "0" for v in fixed), harness="h_matrix",
+                      params=dict(fixed=list(fixed), **({"thin": True} if q else {})), budget=100 if q else 900, reach=[],
+                      bounds="member subsets with the first %d presence bits fixed to %s, the other %d symbolic; %s" % (
+                          len(fixed), list(fixed), 12 - len(fixed), "one order per subset" if q else "3 rotations x 2 directions")))
     for stem, suffix in (("", True), ("usr/bin/", True), ("a", True), ("control", True), (".hidden", True), ("x", False), ("usr/share/doc/x y/", True)):
         for ln in ((0, 1, 2) if q else (0, 1, 2, 3)):
             if stem == "" and ln == 0:
